@@ -156,6 +156,71 @@ def check(ctx):
     _r5(ctx, pkg)
     _r8(ctx, pkg)
     _r9(ctx, pkg)
+    from .c18 import render_reads_only
+    render_reads_only(ctx, pkg, "R10")
+    _r11(ctx, pkg)
+
+
+# ------------------------------------------------------------------ R11  list options keep every item, in order
+
+LIST_OPTIONS = {"loading", "elements", "pseudo-elements", "allowed-species", "extra-species", "network-files", "file-formats", "heating", "cooling"}
+
+
+def _list_parse(v, cls_node, depth=0):
+    """-> ('ok'|'lossy'|'unknown', detail) for the expression a list option is parsed with"""
+    if isinstance(v, ast.ListComp) and len(v.generators) == 1:
+        g = v.generators[0]
+        src = ast.unparse(v)
+        it_ok = isinstance(g.iter, ast.Call) and isinstance(g.iter.func, ast.Attribute) and g.iter.func.attr == "split"
+        var = g.target.id if isinstance(g.target, ast.Name) else None
+        elt_ok = ast.unparse(v.elt) in (f"{var}.strip()", var)
+        ifs_ok = all(ast.unparse(c) in (var, f"{var}.strip()") for c in g.ifs)
+        if it_ok and elt_ok and ifs_ok:
+            return "ok", "split, strip, drop blanks"
+        return "unknown", src[:80]
+    if isinstance(v, ast.Call):
+        f = ast.unparse(v.func)
+        if f in ("list", "tuple") and v.args:
+            inner = v.args[0]
+            if isinstance(inner, ast.Call) and ast.unparse(inner.func) in ("dict.fromkeys", "set", "frozenset", "sorted", "OrderedDict.fromkeys"):
+                return "lossy", f"{ast.unparse(inner.func)}(..) drops repeated items / re-orders"
+        if f in ("sorted", "set", "frozenset") or f.endswith("fromkeys"):
+            return "lossy", f"{f}(..) drops repeated items / re-orders"
+        if isinstance(v.func, ast.Attribute) and isinstance(v.func.value, ast.Name) and v.func.value.id in ("self", "cls") and depth < 2:
+            m = next((x for x in cls_node.body if isinstance(x, ast.FunctionDef) and x.name == v.func.attr), None)
+            if m is not None:
+                rets = [x for x in ast.walk(m) if isinstance(x, ast.Return) and x.value is not None]
+                if len(rets) == 1:
+                    st, why = _list_parse(rets[0].value, cls_node, depth + 1)
+                    return st, f"{v.func.attr}(): {why}"
+    return "unknown", ast.unparse(v)[:80]
+
+
+def _r11(ctx, pkg):
+    """files/formats (and every other list setting) are positional: item i of one list belongs to item i of the other, and a
+    list may legitimately repeat a value (two files of one format).  The parser keeps every non-blank item in order."""
+    ci = pkg.cls("InitCommand")
+    h = ci.methods["handle"]
+    org = _option_origins(h)
+    n = 0
+    for local, opt in sorted(org.items()):
+        if opt not in LIST_OPTIONS:
+            continue
+        # the last assignment that turns the option text into a list
+        cands = [a for a in ast.walk(h) if isinstance(a, ast.Assign) and isinstance(a.targets[0], ast.Name) and a.targets[0].id == local
+                 and not (isinstance(a.value, ast.Call) and ast.unparse(a.value.func) in ("self.option", "self.validate"))]
+        if not cands:
+            continue
+        a = sorted(cands, key=lambda x: x.lineno)[-1]
+        n += 1
+        st, why = _list_parse(a.value, ci.node)
+        if st == "unknown":
+            ctx.unrec("R11", f"--{opt}: list parse", (INIT, a.lineno), f"cannot tell whether every item survives: {why}")
+        else:
+            ctx.check(st == "ok", "R11", f"--{opt}: list parse", (INIT, a.lineno), why if st == "ok" else
+                      f"the items of --{opt} are de-duplicated or re-ordered ({why}): `--network-files=a.kida,b.kida --file-formats=kida,kida` is written as formats = ['kida'] and "
+                      "the render command rejects (or mis-pairs) the configuration", expected="[x.strip() for x in value.split(',') if x]", found=ast.unparse(a.value)[:100])
+    ctx.floor("R11", "list options parsed", n, 9)
 
 
 # ------------------------------------------------------------------ R9  the writer passes every table on whole
@@ -547,6 +612,8 @@ def _r8(ctx, pkg):
 
 
 MUTANTS = [
+    {"name": "render-reindexes-half-indexed", "file": RENDER, "old": '        dupes, dupidx, first = net.find_duplicate_reaction(mode="short")', "new": '        if any(r.idxfromfile == -1 for r in net.reaction_list):\n            net.reindex()\n        dupes, dupidx, first = net.find_duplicate_reaction(mode="short")', "rules": ["R10"]},
+    {"name": "formats-deduplicated", "file": INIT, "old": '        formats = [f.strip() for f in formats.split(",") if f]', "new": '        formats = list(dict.fromkeys(f.strip() for f in formats.split(",") if f))', "rules": ["R11"]},
     {"name": "writer-drops-falsy-modifiers", "file": CONF, "old": "            str(key): value for key, value in self._ratemodifier.items()\n", "new": "            str(key): value for key, value in self._ratemodifier.items() if value\n", "rules": ["R9"]},
     {"name": "writer-compacts-yields-via-helper", "edits": [
         {"file": CONF, "old": "class BaseConfiguration:\n", "new": "def _compact(table):\n    return {str(k): v for k, v in table.items() if v}\n\n\nclass BaseConfiguration:\n"},
